@@ -41,7 +41,10 @@ class PcaClassifier:
         self.n_components = n_components
         self.n_clusters = n_clusters
 
-        self._pca = PCA(n_components=n_components)
+        # NOTE: the randomized solver is chosen for large inputs. It must be seeded
+        # (otherwise the global numpy random state is consumed) and needs power
+        # iterations to reproduce the exact SVD on noisy data.
+        self._pca = PCA(n_components=n_components, iterated_power=7, random_state=seed)
         self._kmeans = KMeans(n_clusters=n_clusters, random_state=seed, n_init=10)
 
     @property
